@@ -14,7 +14,7 @@ use vcommon::{catch, mix, CheckDef, ClassPlan, Outcome, PassInfo, Tape, Tier};
 pub static DEF: CheckDef = CheckDef {
     id: "C17",
     level: "exploration",
-    rule: "Inputs are schema sets (main source + what the resolver offers) decoded from a proptest-generated tape: (soup) token soups over the grammar's alphabet - every keyword and punctuation token of grammar.pest, integer/string/uuid literals, identifiers incl. non-ASCII, the three comment introducers with markdown-ish text, CR / LF / CR LF / tab separators, multi-byte, zero-width and NUL characters - as raw token sequences, shuffled statement phrases, or both; (mutated) 1-4 token-, character- and doc-line-level mutations (delete, duplicate, swap, replace, insert, truncate, splice, markdown fragment into a doc/comment line) of an .aldrin file of the repository picked by the tape, with its sibling schemas resolvable; (advdoc) grammar-directed valid schemas (the C18 generator and layout printer) whose doc comments come from a markdown-adversarial generator (inline/reference/footnote links, images, tables, task lists, unbalanced backticks and brackets, links spanning lines, CR / NUL / tab inside lines, multi-byte characters adjacent to link boundaries, doc-link-shaped paths that do and do not resolve); (multi) a generated main schema importing 1-4 further schemas (generated clean/noisy, soups, mutated repository files; mutual and self imports) of which the resolver offers a random subset, some as unreadable files. Non-trivial = the main schema gets past the grammar (no invalid-syntax error for it) or >= 1 broken-doc-link warning is reported; distinct = distinct (main source, offered schemas).",
+    rule: "Inputs are schema sets (main source + what the resolver offers) decoded from a proptest-generated tape: (soup) token soups over the grammar's alphabet - every keyword and punctuation token of grammar.pest, integer/string/uuid literals, identifiers incl. non-ASCII, the three comment introducers with markdown-ish text, CR / LF / CR LF / tab separators, multi-byte, zero-width and NUL characters - as raw token sequences, shuffled statement phrases, statement soups (complete statements in or out of the grammar's order whose members are mostly but not always of the right kind, i.e. inputs on both sides of the grammar's boundary) and deeply nested generic/array types (<= 300 levels); (mutated) 1-4 token-, character-, line- and doc-line-level mutations (delete, duplicate, swap, replace, insert, truncate, splice with another file, LF -> CR LF / lone CR, swap / move / duplicate a line, markdown-adversarial fragment into a doc or comment line) of an .aldrin file of the repository picked by the tape, with a subset of its sibling schemas resolvable; (advdoc) grammar-directed valid schemas (the C18 generator and layout printer) whose doc comments come from a markdown-adversarial generator (inline/reference/footnote links, images, tables, task lists, unbalanced backticks and brackets, links spanning lines, CR / NUL / tab inside lines, multi-byte characters adjacent to link boundaries, doc-link-shaped paths that do and do not resolve); (multi) a generated main schema importing 1-4 further schemas (generated clean/noisy, soups, mutated repository files; mutual and self imports) of which the resolver offers a random subset, some as unreadable files; plus, enumerated in every run, every .aldrin file of the repository unmodified (repo-file) and under every mutation operator (mutated-enum). Non-trivial = the main schema gets past the grammar (no invalid-syntax error for it) or >= 1 broken-doc-link warning is reported; distinct = distinct (main source, offered schemas).",
     assumptions: &[
         "panics are observed with the harness profile (debug assertions and overflow checks on), in-process under catch_unwind",
         "repeatability is decided on the sorted multiset of renderings (all 8 renderer settings concatenated) of a second, independent Parser::parse of the same input",
@@ -35,7 +35,7 @@ pub static DEF: CheckDef = CheckDef {
         ("has-cr", 0.10),
         ("has-multibyte", 0.15),
         ("multi:missing-import", 0.03),
-        ("multi:io-error", 0.005),
+        ("multi:io-error", 0.003),
         ("other-schema-warning", 0.01),
     ],
     extra: Some(extra),
